@@ -14,7 +14,7 @@ import (
 func init() {
 	register(&Prop{
 		ID:         "C13",
-		Decided:    "(1) routing: every predicate text that reaches condition.NewExprCondition from WHERE (RegisterFilter) and HAVING (applyHavingWithCondition) flows through PreprocessLikeExpression and PreprocessIsNullExpression, and every compile/eval in ExprBridge.EvaluateExpression is dominated by preprocessCached, which applies both rewrites; the name like_match is bound in the condition environment and in both bridge environments, is_null/is_not_null in the condition environment; (2) wildcard priority in each of the three hand-written LIKE matchers: when the pattern byte is '%', what the matcher does in that step does not depend on the text byte (a '%' in the pattern is never consumed as a literal match of a '%' in the text); (3) the three matchers end by skipping trailing '%' and accept iff the pattern is exhausted. Also: the literal handed to contains/startsWith/endsWith by the LIKE rewriter is the pattern with every leading/trailing % removed. Also: in package expr an operand of unknown type is rendered as text (fmt.Sprintf %v) for a string comparison / the LIKE matcher only where it cannot be nil (flow/null-never-rendered-for-compare): NULL LIKE p is never decided on the text \"<nil>\". Also: the predicate objects that evaluate LIKE / IS NULL are shared by all goroutines calling Emit/EmitSync: their Evaluate methods keep no per-evaluation state in the shared object (whomay/evaluators-read-only, shared with C05).",
+		Decided:    "(1) routing: every predicate text that reaches condition.NewExprCondition from WHERE (RegisterFilter) and HAVING (applyHavingWithCondition) flows through PreprocessLikeExpression and PreprocessIsNullExpression, and every compile/eval in ExprBridge.EvaluateExpression is dominated by preprocessCached, which applies both rewrites; the name like_match is bound in the condition environment and in both bridge environments, is_null/is_not_null in the condition environment; (2) wildcard priority in each of the three hand-written LIKE matchers: when the pattern byte is '%', what the matcher does in that step does not depend on the text byte (a '%' in the pattern is never consumed as a literal match of a '%' in the text); (3) the three matchers end by skipping trailing '%' and accept iff the pattern is exhausted. Also: the literal handed to contains/startsWith/endsWith by the LIKE rewriter is the pattern with every leading/trailing % removed. Also: in package expr an operand of unknown type is rendered as text (fmt.Sprintf %v) for a string comparison / the LIKE matcher only where it cannot be nil (flow/null-never-rendered-for-compare): NULL LIKE p is never decided on the text \"<nil>\". Also: the predicate objects that evaluate LIKE / IS NULL are shared by all goroutines calling Emit/EmitSync: their Evaluate methods keep no per-evaluation state in the shared object (whomay/evaluators-read-only, shared with C05). Also: no struct type and no package-level variable of the module holds an expr-lang vm.VM (ownmap/no-retained-vm): the run-time state of one evaluation is never kept in an object shared by concurrent evaluations or by all instances of the process.",
 		NotDecided: "the rest of LIKE matching semantics (backtracking correctness, '_' handling, byte vs rune granularity), the startsWith/endsWith/contains rewriting of simple patterns, IS NULL on typed nils, agreement of the three matchers beyond the clauses above.",
 		Run:        runC13,
 	})
@@ -183,6 +183,7 @@ func runC13(a *A) {
 	})
 	a.Rule("shape/like-shortcut-operand", 3, func() { a.ruleLikeShortcutOperand() })
 	a.Rule("whomay/evaluators-read-only", 5, func() { a.ruleEvaluatorsReadOnly() })
+	a.Rule("ownmap/no-retained-vm", 1, func() { a.ruleNoRetainedVM() })
 	a.Rule("flow/null-never-rendered-for-compare", 2, func() { a.ruleNullNeverRenderedForCompare() })
 	a.Rule("shape/like-rewrite-mentions-column", 1, func() {
 		// whatever a LIKE is rewritten to has to look at the column: a constant (LIKE '%' -> true) also
